@@ -28,6 +28,8 @@ def native_c09(tier, seed):
 
 
 REGISTRY = {
+    'C17': dict(module='contracts.C17', native=None, level='proof', undecided=[],
+                trusted=['list.sort(key) / sorted(): result is a permutation ordered by the key (axiom)']),
     'C09': dict(module='contracts.C09', native=native_c09, level='proof',
                 undecided=[], trusted=['sum over a permutation of a list = sum over the list (commutativity of +)']),
 }
